@@ -9,6 +9,7 @@ package db
 import (
 	"errors"
 	"fmt"
+	"strconv"
 	"strings"
 
 	"github.com/alicebob/sqlittle/sql"
@@ -129,7 +130,7 @@ func newCreateTable(ct sql.CreateTableStmt) *Schema {
 			Column:  c.Name,
 			Type:    c.Type,
 			Null:    c.Null,
-			Default: c.Default,
+			Default: defaultWithAffinity(c.Type, c.Default),
 			Collate: c.Collate,
 			Rowid:   false,
 		}
@@ -416,4 +417,61 @@ func isRowid(tableConstraint bool, typ string, dir sql.SortOrder) bool {
 		return false
 	}
 	return tableConstraint || dir == sql.Asc
+}
+
+// SQLite stores (and hence reads) a column's DEFAULT with the affinity of the
+// column applied: `TEXT DEFAULT 1` gives the string "1", `INTEGER DEFAULT '2'`
+// the number 2, `REAL DEFAULT 3` the float 3.0.
+// See https://sqlite.org/datatype3.html chapter "3.1. Determination Of Column
+// Affinity".
+func defaultWithAffinity(typ string, v interface{}) interface{} {
+	t := strings.ToUpper(typ)
+	has := func(s string) bool { return strings.Contains(t, s) }
+	switch {
+	case has("INT"):
+		return numericAffinity(v, false)
+	case has("CHAR"), has("CLOB"), has("TEXT"):
+		switch n := v.(type) {
+		case int64:
+			return strconv.FormatInt(n, 10)
+		case float64:
+			s := strconv.FormatFloat(n, 'g', 15, 64)
+			if !strings.ContainsAny(s, ".eIN") {
+				s += ".0"
+			}
+			return s
+		}
+		return v
+	case t == "", has("BLOB"):
+		return v
+	case has("REAL"), has("FLOA"), has("DOUB"):
+		return numericAffinity(v, true)
+	default:
+		return numericAffinity(v, false)
+	}
+}
+
+// text which looks like a number becomes a number, and for REAL columns
+// integers become floats.
+func numericAffinity(v interface{}, real bool) interface{} {
+	if s, ok := v.(string); ok {
+		if n, err := strconv.ParseInt(strings.TrimSpace(s), 10, 64); err == nil {
+			v = n
+		} else if f, err := strconv.ParseFloat(strings.TrimSpace(s), 64); err == nil {
+			v = f
+		} else {
+			return v
+		}
+	}
+	switch n := v.(type) {
+	case int64:
+		if real {
+			return float64(n)
+		}
+	case float64:
+		if i := int64(n); !real && float64(i) == n && i > -1<<51 && i < 1<<51 {
+			return i
+		}
+	}
+	return v
 }
